@@ -33,7 +33,23 @@ def callIdFresh (tbl : List SealRec) (key callId : Bytes) : Bool :=
     | .call d => !(decide (r.key = key ∧ d.callId = callId))
     | _ => true
 
-/-- Record a seal event: the envelope is taken from the token text the server produced. -/
+/-- All call tokens sealed under one key for one call id carry the same contents (a call token is
+minted once per call; the harness's re-sealing keeps the contents and only draws a new nonce). -/
+def callConsistent (tbl : List SealRec) (key : Bytes) (d : CallData) : Bool :=
+  tbl.all fun r => match r.pt with
+    | .call d' => !(decide (r.key = key ∧ d'.callId = d.callId)) || decide (d' = d)
+    | _ => true
+
+/-- Call ids are NUL-free (the server mints 32 hex characters), so the cache key
+`callId ‖ 0 ‖ identity` splits unambiguously. -/
+def plainOk (tbl : List SealRec) (key : Bytes) : Plain → Bool
+  | .cursor d => decide ((0 : UInt8) ∉ d.callId)
+  | .call d => decide ((0 : UInt8) ∉ d.callId) && callConsistent tbl key d
+  | .session _ => true
+
+/-- Record a seal event: the envelope is taken from the token text the server produced. The
+world refuses events that contradict what randomness guarantees (nonce reuse, a second call token
+with different contents for the same call id, a call id containing NUL). -/
 def recordSeal (tbl : List SealRec) (key aad : Bytes) (session : Bool) (token : Bytes) (pt : Plain) :
     Option (List SealRec) :=
   match (if session then b64Session token else b64Std token) with
@@ -42,7 +58,7 @@ def recordSeal (tbl : List SealRec) (key aad : Bytes) (session : Bool) (token : 
     match splitEnvelope raw with
     | none => none
     | some env =>
-      if nonceFresh tbl (normKey key) env.nonce then
+      if nonceFresh tbl (normKey key) env.nonce && plainOk tbl (normKey key) pt then
         some (⟨normKey key, env.nonce, aad, env.ct, pt⟩ :: tbl)
       else none
 
